@@ -153,6 +153,37 @@ CLAIMED = {
         note=NOTE + "PARTIAL by nature: tokio's scheduler, real memory ordering and the OS temp file are not modelled; a behaviour outside the "
                     "transition system (e.g. a torn access) can only be exposed by the delayed runs. Progress of the product (no deadlock) is "
                     "not a theorem; hangs are searched by the watchdog."),
+    "C09": dict(
+        text=("Proof: the Lean-defined certificate is sound — an index accepted by `walk` is laid out in the image with every recorded span "
+              "containing the leaves beneath it, hence the READER's byte-level search = linear scan over its leaves; index accepted + "
+              "every leaf block accepted ⇒ every query of the reader model returns exactly the independently decoded content (bigWig and "
+              "bigBed); the model writers' output is always valid. Per run (translation validation): every file the real writers "
+              "produce is decoded and judged by an independent Python decoder (format consistency, span containment in every R-tree, "
+              "zlib blocks within the advertised buffer and ≤ itemsPerSlot items of one chromosome, data count, summary and zoom "
+              "records recomputed) and must decode to exactly the input; uncompressed files are also judged by the Lean certificate."),
+        ref="DESIGN.md §5 C09",
+        note=NOTE + "Two judges: tools/bbi_codec.py (struct + zlib, shares no code with bigtools) and the Lean wfFile; sorted chromosome keys are "
+                    "required only when the input's chromosomes were sorted (the repo documents the other case as unsupported by third-party readers)."),
+    "C10": dict(
+        text=("Proof: the reader's byte-level explicit-stack R-tree search equals the abstract depth-first search for ANY node placement, "
+              "fan-out, depth and either byte order; bedGraph / varStep / fixedStep sections decode to the values they denote, filtered and "
+              "clipped; an accepted index is searched like a linear scan; an accepted file is read exactly as decoded; big-endian read lemma; "
+              "D12 witnesses. Correspondence: files from an independent encoder over {LE, BE} × {zlib, raw} × section types 1/2/3 × "
+              "chromosome-tree block sizes × R-tree fan-outs × node placements × versions 1..4 (each accepted by the independent judge "
+              "first): real readers (plain, caching) vs the decoded content for chromosome table, summary, interval / per-base / zoom "
+              "queries, and vs the Lean reader model on the same bytes."),
+        ref="DESIGN.md §5 C10",
+        note=NOTE + "The decode theorems are stated little-endian (the big-endian twins follow from BBI.uN_be by the same proofs and are exercised "
+                    "by the reader model on big-endian files). Non-UTF-8 rest fields (the reader unwraps from_utf8) are outside the quantifier."),
+    "C17": dict(
+        text=("Proof: size, covered bases and sum accumulated by stats_for_bed_item from the clipped values equal the coverage and "
+              "weighted sum of the stored values inside the region; min / max equal the extrema of the overlapping values, NaN exactly "
+              "when nothing is covered (incl. empty regions); chunks partition the input rows in order for every chunk count, so "
+              "chunked output = serial output; per-base values array. Correspondence: stats_for_bed_item in-process vs model and oracle "
+              "(means recomputed as the same IEEE quotient); bigwigaverageoverbed -t 1..16 × name modes × --min-max and "
+              "bigwigvaluesoverbed at the command line vs -t 1 and the oracle."),
+        ref="DESIGN.md §5 C17",
+        note=NOTE + "Means are f64 quotients of proved quantities (division is outside the integer model); the {:.3} text is compared numerically."),
 }
 
 PENDING = ["C01", "C02", "C03", "C04", "C05", "C06", "C07", "C08", "C09", "C10", "C11", "C13", "C14", "C15", "C16",
